@@ -95,6 +95,41 @@ def body_for(s, v):
         if "?" in w:
             return "format!(\"{:?}\", format!(\"{:?}\", E::%s))" % id_
         return "format!(\"{:?}\", format!(\"{}\", E::%s))" % id_
+    m = re.match(r"^fn-vs-trait\((\".*\")\)$", call, re.S)
+    if m and cfg.has("from_str") and cfg.has("FromStr"):
+        return ("let a = so(<E>::%s(%s)); let b = so(<E as ::core::str::FromStr>::from_str(%s).ok()); "
+                "if a == b { expected.to_string() } else { format!(\"fn {} vs trait {}\", a, b) }" % (cfg.item("from_str"), m.group(1), m.group(1)))
+    m = re.match(r"^fn-vs-trait\((-?\d+)\)$", call)
+    if m and cfg.has("try_from") and cfg.has("TryFrom"):
+        return ("let a = so(<E>::%s(%s as R)); let b = so(<E as TryFrom<R>>::try_from(%s as R).ok()); "
+                "if a == b { expected.to_string() } else { format!(\"fn {} vs trait {}\", a, b) }" % (cfg.item("try_from"), m.group(1), m.group(1)))
+    m = re.match(r"^next_back\(next\((-?\d+)\)\)$", call)
+    if m and cfg.has("next") and cfg.has("next_back"):
+        v = next((x for x in s.decl.variants if x.value == int(m.group(1))), None)
+        if v is not None:
+            return ("match <E>::%s(E::%s) { Some(n) => so(<E>::%s(n)), None => \"None (from next)\".to_string() }"
+                    % (cfg.item("next"), v.ident, cfg.item("next_back")))
+    m = re.match(r"^chain by (next|next_back)$", call)
+    if m and cfg.has(m.group(1)):
+        f = m.group(1)
+        start = "MIN" if f == "next" else "MAX"
+        sv_ = sorted(s.decl.variants, key=lambda x: x.value)
+        first = sv_[0].ident if f == "next" else sv_[-1].ident
+        return ("let mut v: Vec<i128> = Vec::new(); let mut cur = Some(E::%s); let mut steps = 0; "
+                "while let Some(c) = cur { v.push(c as R as i128); steps += 1; if steps > %d { break; } cur = <E>::%s(c); } format!(\"{:?}\", v)"
+                % (first, len(sv_) + 1, cfg.item(f)))
+    m = re.match(r"^(iter|names): method-call-syntax script", call)
+    if m and cfg.has(m.group(1)):
+        w = m.group(1)
+        mk = "<E>::%s()" % cfg.item(w)
+        return ("let none = || \"\\\"\\\\0none\\\"\".to_string(); let mut v: Vec<String> = Vec::new(); let mut it = %(mk)s; "
+                "v.push(it.len().to_string()); v.push(it.next().map_or(none(), |x| x.show())); v.push(it.len().to_string()); "
+                "v.push(it.next_back().map_or(none(), |x| x.show())); v.push(it.len().to_string()); let sh = it.size_hint(); "
+                "v.push(sh.0.to_string()); v.push(sh.1.map_or(-1, |x| x as i128).to_string()); v.push(it.nth(1).map_or(none(), |x| x.show())); "
+                "v.push(it.len().to_string()); v.push(it.nth_back(0).map_or(none(), |x| x.show())); v.push(it.len().to_string()); "
+                "v.push(it.count().to_string()); v.push(%(mk)s.last().map_or(none(), |x| x.show())); v.push(%(mk)s.rev().next().map_or(none(), |x| x.show())); "
+                "v.push(%(mk)s.fold(0i128, |a, _| a + 1).to_string()); v.push(%(mk)s.skip(2).next().map_or(none(), |x| x.show())); "
+                "v.push(%(mk)s.len().to_string()); format!(\"[{}]\", v.join(\", \"))" % {"mk": mk})
     m = re.match(r"^(from_str|FromStr::from_str)\((\".*\")\)$", call, re.S)
     if m:
         if m.group(1) == "from_str":
